@@ -16,8 +16,8 @@ LEVEL = "exploration"
 U2, U3, U7, N2, N3, US = ("uniform_shape(2)", "uniform_shape(3)", "uniform_shape(7)", "nway_shape(2)",
                            "nway_shape(3)", "uniform_shape(SZ)")
 STACKS1 = [[U2], [U3], [U7], [N2], [N3], [US]]
-STACKS2 = [[U2, "uniform_shape(1)"], [N2, "uniform_shape(1)"], [U3, U2]]
-STACKS3 = [[U3, U2, "uniform_shape(1)"], [N2, U2, "uniform_shape(1)"]]
+STACKS2 = [[U2, "uniform_shape(1)"], [N2, "uniform_shape(1)"], [U3, U2], [U2, U2], [N2, N2]]
+STACKS3 = [[U3, U2, "uniform_shape(1)"], [N2, U2, "uniform_shape(1)"], [U2, "uniform_shape(1)", U2]]
 SIZE_MENU = (1, 2, 3)
 
 
@@ -59,7 +59,7 @@ def orders(groups, all_perm_limit):
 def configs(ctx):
     work = []
     quick = ctx.quick
-    tags = ["P1", "P2", "P3", "P7", "S1", "S2", "T2b", "P9"]
+    tags = ["P1", "P1ij", "P2", "P3", "P7", "S1", "S2", "T2b", "P9"]
     tmpl = dict(U.templates("thorough"))
     max_cells = ctx.pick(10, 12)
     for tag in tags:
@@ -85,8 +85,10 @@ def configs(ctx):
                 groups = loop_ranks(ranks, part)
                 nloop = sum(len(g) for g in groups)
                 los = orders(groups, ctx.pick(4, 5))
-                if quick and len(los) > 30:
-                    los = los[::max(1, len(los) // 30)]
+                if quick:
+                    cap = 24 if (tag == "P1" and len(sub) == 1) else 8
+                    if len(los) > cap:
+                        los = los[::-(-len(los) // cap)]
                 sizes_menu = SIZE_MENU if any(US in s for s in stacks) else (None,)
                 exts, mc_ = [], max_cells
                 while not exts:
